@@ -498,28 +498,107 @@ ADDITIVE = {"insert", "push_back", "emplace", "emplace_back", "push"}
 SUBTRACTIVE = {"erase", "pop_back", "pop"}
 
 
-def _state_mutations(ix, block):
+def _pos(n):
+  b = (n.get("range") or {}).get("begin") or {}
+  return (_line(n), b.get("col", 0))
+
+
+def _is_action_stack(ix, obj, t):
+  """The action stack: a local/parameter of type std::stack<Action> (any name)."""
+  ty = cxx.qual_type(obj) if obj is not None else ""
+  if "stack<" in ty and "Action" in ty:
+    return True
+  return isinstance(t, tuple) and t[0] == "var" and t[1] == "actions"
+
+
+def _state_helper(ix, n):
+  """The Fn a plain call hands the TraverseState / action stack to, else None."""
+  if n.get("kind") != "CallExpr":
+    return None
+  key, fn, nm, obj = ix.callee(n)
+  if fn is None or fn.body is None or not fn.file.endswith("solver.cc"):
+    return None
+  for p in fn.params:
+    ty = cxx.qual_type(p)
+    if "TraverseState" in ty or ("stack<" in ty and "Action" in ty):
+      return fn
+  return None
+
+
+def _state_mutations(ix, block, _depth=0):
   """Ordered (kind, field, node) events of one statement list: mutations of
-  TraverseState fields and pushes onto the action stack."""
-  out = []
+  TraverseState fields and pushes onto the action stack.  A call of a
+  file-local helper that receives the state or the stack contributes the
+  helper's events at the position of the call (two levels deep)."""
+  keyed = []
   for n in cxx.walk(block):
+    if n.get("kind") == "CallExpr":
+      fn = _state_helper(ix, n) if _depth < 2 else None
+      if fn is not None:
+        for i, e in enumerate(_state_mutations(ix, fn.body, _depth + 1)):
+          keyed.append((_pos(n) + (i,), e))
+      continue
     if n.get("kind") != "CXXMemberCallExpr":
       continue
     key, fn, nm, obj = ix.callee(n)
     t = term(ix, obj) if obj is not None else None
-    ts = str(t)
     if isinstance(t, tuple) and t[0] == "field" and "TraverseState::" in t[1]:
       f = t[1].split("::")[-1]
       if nm in ADDITIVE:
-        out.append(("add", f, n))
+        keyed.append((_pos(n) + (0,), ("add", f, n)))
       elif nm in SUBTRACTIVE:
-        out.append(("sub", f, n))
-    elif isinstance(t, tuple) and t[0] == "var" and t[1] == "actions" and nm in ("emplace", "push"):
+        keyed.append((_pos(n) + (0,), ("sub", f, n)))
+    elif nm in ("emplace", "push") and _is_action_stack(ix, obj, t):
       args = [uncast(term(ix, a)) for a in inner(n)[1:]]
       what = args[0][1] if args and args[0][0] == "var" else str(args[0]) if args else "?"
-      out.append(("push", what, n))
-  out.sort(key=lambda e: (_line(e[2]), ((e[2].get("range") or {}).get("begin") or {}).get("col", 0)))
-  return out
+      if args and args[0][0] == "var" and "Action" in (cxx.qual_type(inner(n)[1]) or "") \
+          and "ActionType" not in (cxx.qual_type(inner(n)[1]) or ""):
+        what = "action"      # a whole Action pushed back: the continuation
+      keyed.append((_pos(n) + (0,), ("push", what, n)))
+  keyed.sort(key=lambda ke: ke[0])
+  return [e for _, e in keyed]
+
+
+def _added_flags(fn, call):
+  """Names that hold `.second` of the pair returned by this insert() call."""
+  names = set()
+  for d in cxx.walk(fn.body):
+    if d.get("kind") == "DecompositionDecl" and any(x is call for x in cxx.walk(d)):
+      bs = [b for b in inner(d) if b.get("kind") == "BindingDecl"]
+      if len(bs) == 2:
+        names.add(bs[1].get("name"))
+  return names
+
+
+def _not_added_region(ix, fn, call):
+  """ids of the nodes that only run when this insert() added nothing:
+  the then-branch of `if (!added)` / the else-branch of `if (added)`."""
+  flags = _added_flags(fn, call)
+  region = set()
+  if not flags:
+    return region
+  for n in cxx.walk(fn.body):
+    if n.get("kind") != "IfStmt" or _pos(n) < _pos(call):
+      continue
+    cond, then, els = _if_parts(n)
+    c = uncast(term(ix, cond))
+    if isinstance(c, tuple) and c[0] == "!" and isinstance(uncast(c[1]), tuple) and \
+        uncast(c[1])[0] == "var" and uncast(c[1])[1] in flags:
+      region |= {id(x) for x in cxx.walk(then)}
+    elif isinstance(c, tuple) and c[0] == "var" and c[1] in flags and els is not None:
+      region |= {id(x) for x in cxx.walk(els)}
+  return region
+
+
+def _same_block(blk, a, b):
+  """a and b are statements of one compound statement (b not nested deeper
+  than a's siblings)."""
+  for c in cxx.walk(blk):
+    if c.get("kind") == "CompoundStmt":
+      kids = inner(c)
+      if any(k is a for k in kids) and any(any(x is b for x in cxx.walk(k)) for k in kids):
+        return True
+  return False
 
 
 def _insert_undo_conditional(ix, fn, blk, call, fld):
@@ -553,6 +632,16 @@ def _insert_undo_conditional(ix, fn, blk, call, fld):
         return f"guarded by `{c[1]}` (second of the insert result)"
       if any(b.endswith(".second") and b.split(".")[0] in cs and "second" in cs for b in bool_names):
         return "guarded by .second of the insert result"
+  # (a') a guard clause `if (!added) { ...; return; }` stands between insert and push
+  for n in cxx.walk(blk):
+    if n.get("kind") == "IfStmt" and _pos(call) < _pos(n) < _pos(push) and \
+        not any(x is push for x in cxx.walk(n)):
+      cond, then, els = _if_parts(n)
+      c = uncast(term(ix, cond))
+      if isinstance(c, tuple) and c[0] == "!" and isinstance(uncast(c[1]), tuple) and \
+          uncast(c[1])[0] == "var" and uncast(c[1])[1] in bool_names and \
+          _leaves_iteration(then) and _same_block(blk, n, push):
+        return f"push only reached past the guard clause `if (!{uncast(c[1])[1]}) return`"
   # (b) an earlier membership test on the same element returns before the insert
   for n in cxx.walk(blk):
     if n.get("kind") == "IfStmt" and _line(n) < _line(call):
@@ -594,7 +683,9 @@ def r7_6(ctx):
       continue
     n_mut += 1
     want = ("ERASE_" if kind == "add" else "INSERT_") + f.upper()
-    nxt = next((e for e in ev[i + 1:] if e[0] in ("push", "add", "sub")), None)
+    skip = _not_added_region(ix, tr, node) if kind == "add" else set()
+    nxt = next((e for e in ev[i + 1:] if e[0] in ("push", "add", "sub")
+                and id(e[2]) not in skip), None)
     ok = nxt is not None and nxt[0] == "push" and nxt[1] == want
     ctx.check(ok, f"traverse:{f}:{'insert' if kind == 'add' else 'erase'}->{want}", SC, _line(node),
               f"the {'insertion into' if kind == 'add' else 'removal from'} "
@@ -658,29 +749,35 @@ def r7_6(ctx):
             "each goal inserted for this alternative must push its ERASE undo",
             {"order": kinds})
   # (4) the undo of a *set* insertion is pushed iff the element was really added
-  for fn_, scope in ((tr, tr.body), (rm, None)):
-    blocks = [scope] if scope is not None else list(arm)
-    for blk in blocks:
-      for n in cxx.walk(blk):
-        if n.get("kind") != "CXXMemberCallExpr":
-          continue
-        key, f_, nm, obj = ix.callee(n)
-        t = term(ix, obj) if obj is not None else None
-        if not (nm == "insert" and isinstance(t, tuple) and t[0] == "field"
-                and "TraverseState::" in t[1]):
-          continue
-        fld = t[1].split("::")[-1]
-        ftype = ix.field_type.get(t[1].replace("internal::", "") , "") or \
-            ix.field_type.get(t[1], "")
-        if "vector" in ftype:
-          continue
-        verdict = _insert_undo_conditional(ix, fn_, blk, n, fld)
-        ctx.check(verdict is not None, f"{fn_.name}:{fld}:undo-iff-added", SC, _line(n),
-                  f"state.{fld} is a set: insert() is a no-op when the goal is "
-                  "already present, but its ERASE undo is pushed regardless - "
-                  "backtracking then erases a goal that belongs to an outer level "
-                  "(the next source-set alternative runs without it)",
-                  {"discharged_by": verdict})
+  def check_inserts(fn_, blk, depth=0):
+    for n in cxx.walk(blk):
+      if n.get("kind") == "CallExpr" and depth < 2:
+        h = _state_helper(ix, n)
+        if h is not None and h is not tr:
+          check_inserts(h, h.body, depth + 1)
+        continue
+      if n.get("kind") != "CXXMemberCallExpr":
+        continue
+      key, f_, nm, obj = ix.callee(n)
+      t = term(ix, obj) if obj is not None else None
+      if not (nm == "insert" and isinstance(t, tuple) and t[0] == "field"
+              and "TraverseState::" in t[1]):
+        continue
+      fld = t[1].split("::")[-1]
+      ftype = ix.field_type.get(t[1].replace("internal::", "") , "") or \
+          ix.field_type.get(t[1], "")
+      if "vector" in ftype:
+        continue
+      verdict = _insert_undo_conditional(ix, fn_, blk, n, fld)
+      ctx.check(verdict is not None, f"{fn_.name}:{fld}:undo-iff-added", SC, _line(n),
+                f"state.{fld} is a set: insert() is a no-op when the goal is "
+                "already present, but its ERASE undo is pushed regardless - "
+                "backtracking then erases a goal that belongs to an outer level "
+                "(the next source-set alternative runs without it)",
+                {"discharged_by": verdict})
+  check_inserts(tr, tr.body)
+  for blk in arm:
+    check_inserts(rm, blk)
   # every action kind is produced somewhere (an undo kind nobody pushes is a lost undo)
   produced = {e[1] for e in _state_mutations(ix, tr.body) + _state_mutations(ix, rm.body)
               if e[0] == "push"}
